@@ -229,6 +229,10 @@ fn get_dir_name() -> String {
 
 #[cfg(not(test))]
 fn get_dir_name() -> String {
+    #[cfg(feature = "verif")]
+    if let Some(dir) = crate::verif::dir_override() {
+        return dir;
+    }
     NUN_DBS_DIR.to_string()
 }
 
@@ -319,6 +323,11 @@ pub fn declutter_scheduler(timer: timer::Timer, dbs: Arc<Databases>) {
         )
     };
     rx.recv().unwrap(); // Thread will run for ever
+}
+
+#[cfg(feature = "verif")]
+pub fn verif_declutter(dbs: &Arc<Databases>) {
+    declutter(dbs);
 }
 
 fn declutter(dbs: &Arc<Databases>) {
